@@ -18,7 +18,8 @@ LEVEL_TEXT = ("Replies with 0..8 generated 16-byte records (slot ids 0..255 incl
               "the record it received. Sampling of zones/dates/records; not a proof.")
 RULE = ("listing case = (zone, now, records); round-trip case = (zone, now, start, end, days). Non-trivial = >= 2 records or zone "
         "!= UTC or a date within a day of a UTC-offset transition; distinct by the whole case."
-        ' Round trips draw half of their clock strings from 00:00-03:59 on DST-change days; in the direct path the day sets of the first result are cleared and the same reply is parsed again; the days of a round trip are handed over as set, frozenset, list or tuple; schedule records whose time stamps contain the byte pairs fe f0 / f0 fe.')
+        ' Round trips draw half of their clock strings from 00:00-03:59 on DST-change days; in the direct path the day sets of the first result are cleared and the same reply is parsed again; the days of a round trip are handed over as set, frozenset, list or tuple; schedule records whose time stamps contain the byte pairs fe f0 / f0 fe.'
+        " The round-trip's 'now' includes second 59 with sub-second parts .499999/.5/.999999 (the current second must not leak into the record).")
 ASSUMPTIONS = [
     "reply layout: 45-byte header, n x 16-byte records (slot, enabled, mask, state, start LE32, end LE32, 4 opaque), 4-byte trailer, pinned by tests/testresources/test_schedule_parser capture",
     "odd day masks and times inside a DST gap are unspecified and not generated / skipped; 'display' is C13's business",
